@@ -44,6 +44,8 @@ def check(ctx, tier):
     from .. import hazards as _hz, scopes as _sc
     _hz.generic(ctx, tk, "C05.z", _sc.scope(tk, "C05", depth=1))
     _hz.h27_positional_arguments_dropped(ctx, tk, "C05.z/H27", [f_ for f_ in (ctx.program.funcs.get(q_) for q_ in ['arrayfunctions.get_ra_func']) if f_ is not None])
+    # argmax / argmin compare the array with its broadcast row extremum: the broadcast must be exact
+    _hz.h37_telescoping_needs_exact_arithmetic(ctx, tk, "C05.z/H37", _sc.scope(tk, "C05", closure=True))
     _hz.h19_raw_identity_store(ctx, tk, "C05.z/H19", [ctx.func("raggedarray.RaggedArray._reduce")])
     _hz.h21_default_dtype_result(ctx, tk, "C05.z/H21", [ctx.func("raggedarray.RaggedArray._reduce")])
     return {}
